@@ -50,6 +50,33 @@ class Check(PropCheck):
                         ops.append('m_get %s %s' % (vf.enc_str(a), vf.enc_str(b)))
                 ops.append('m_taxa_index %s' % vf.enc_str(perm[0]))
             cases.append(Case('n%d' % n, ops, {'n': n}))
+        # value / name classes: names that differ only in case or are prefixes of each other, numeric-looking and non-ASCII names;
+        # cells that are all +inf / all -inf / all equal / huge / subnormal (minimum and maximum search against pairwise reads)
+        import math
+        name_sets = [['abc1', 'ABC1', 'Abc1', 'out'], ['x', 'xy', 'xyz', 'X'], ['1', '01', '1.0', '1e0'], ['é', 'É', 'e', 'E', 'ε'],
+                     ['t0'], ['a', 'A'], ['Tip_1', 'tip_1', 'TIP_1', 'Tip_10', 'Tip_01']]
+        val_sets = [lambda k: math.inf, lambda k: -math.inf, lambda k: 2.5, lambda k: 1e308 * (1 + k % 2), lambda k: 5e-324 * (k + 1),
+                    lambda k: float(k + 1), lambda k: [math.inf, 1.0, -math.inf][k % 3], lambda k: -float(k)]
+        for si, names in enumerate(name_sets):
+            for vi, vf_ in enumerate(val_sets):
+                n = len(names); cells = n * (n - 1) // 2
+                vals = [vf_(k) for k in range(cells)]
+                ops = ['m_new %d %s %s' % (n, ' '.join(vf.enc_str(x) for x in names), ' '.join(vf.enc_len(v) for v in vals)),
+                       'm_dump', 'm_iter', 'm_indexed', 'm_to_map', 'm_min', 'm_max']
+                for a in names:
+                    for b in names:
+                        ops.append('m_get %s %s' % (vf.enc_str(a), vf.enc_str(b)))
+                if n >= 2:
+                    a, b = names[0], names[1]
+                    ops.append('m_set %s %s %s' % (vf.enc_str(a), vf.enc_str(b), vf.enc_len(7.25)))
+                    ops.append('m_set %s %s %s' % (vf.enc_str(names[-1]), vf.enc_str(a), vf.enc_len(-3.5)))
+                    ops += ['m_dump', 'm_to_map', 'm_min', 'm_max']
+                    for x in names:
+                        for y in names:
+                            ops.append('m_get %s %s' % (vf.enc_str(x), vf.enc_str(y)))
+                ops.append('m_taxa_index %s' % vf.enc_str(names[-1]))
+                ops.append('m_taxa_index %s' % vf.enc_str(names[0].swapcase()))
+                cases.append(Case('cls%d_%d' % (si, vi), ops, {'n': max(n, 3), 'distinct': False}))
         # hook: index functions on big indices against the model (N arithmetic)
         ops = []
         for _ in range(600 if self.tier == 'quick' else 6000):
@@ -141,7 +168,7 @@ class Check(PropCheck):
                 x, y = vf.dec_str(a[1]), vf.dec_str(a[2])
                 if x != y and x in taxa and y in taxa:
                     first_gets.setdefault(l[1], set()).add(frozenset([x, y]))
-        if not bad:
+        if not bad and case.meta.get('distinct', True):
             for v, prs in first_gets.items():
                 if len(prs) != 1:
                     bad.append((0, 'stored value %s is read for %d different pairs' % (v, len(prs)))); break
